@@ -519,6 +519,13 @@ def _mirsym():
         bounds="sorted dictionaries {b}, {b,d}, {a,c,e} (+{ab,b} thorough) in the IndexedPackedStrings layout, 0 and 2 rows (quick) / 0,1,3 (thorough) with symbolic in-range indices; T = u8 (+u16 thorough); strings of 2^24 bytes or more are outside the claim (TODO(34) in the code)",
         spec=sop_.DictLookupSpec(), stubs=["Scratchpad accessors -> obligation-owned buffers"])
 
+    add("C07.e/table_batch", "C07", "mirsym", Q,
+        "Table::batch (frozen buffer -> partition) called for successive flushes: an empty buffer creates nothing; otherwise the partition gets the next id, starts at the row where the previous one ended, covers exactly the buffer's rows and is registered under its id; next_partition_offset advances by the row count - partition row ranges tile the table",
+        ["mem_store::table::Table::{batch,next_partition_id,name}"],
+        bounds="1-2 (quick) / 1-3 (thorough) successive buffers with symbolic row counts (< 2^32), symbolic starting id and offset (< 2^40); Partition::from_buffer stubbed as a recorder of (id, offset, rows) - column finalisation is C01's subject; Mutex / RwLock as boxes (sequential), atomics as cells",
+        spec=scp.TableBatchSpec(), stubs=["Partition::from_buffer -> recorder (range = offset .. offset + buffer rows)", "mem::take::<Buffer> -> empty buffer", "Mutex/RwLock -> boxes", "AtomicU64/AtomicUsize::fetch_add -> cells"],
+        assumptions=["flushes are serialised (wal_flush holds the table's frozen buffer): Table::batch itself runs sequentially"])
+
 
 _mirsym()
 
